@@ -44,7 +44,7 @@ Proof. intros Y X. split; [apply displace_length|apply displace_incl]. Qed.
 Example C03_nonvacuous :
   let Y := [0; 1; 2; 0; 1; 2; 0; 0; 1; 2]%Z in let X := [5; 5; 9; 9; 7; 7; 5; 3; 9; 9]%Z in
   length Y = length X /\ (0 < length X)%nat /\ Y <> X /\
-  displace Y X = [0; 1; 0; 0; 0; 0; 2; 0; 2; 0]%Z /\
+  displace Y X = [0; 1; 0; 0; 0; 0; 2; 1; 2; 0]%Z /\
   enc (entry Y X true)
   = (10%Z, [4; 3; 3]%Z, [(3%Z, [2; 1]%Z, [1; 1; 1]%Z); (2%Z, [1; 1]%Z, [2]%Z); (4%Z, [1; 1; 2]%Z, [3; 1]%Z)], true).
 Proof. cbv zeta. repeat split; try (vm_compute; discriminate). vm_compute. repeat constructor. Qed.
